@@ -1234,12 +1234,12 @@ fn gen_chain(rng: &mut Rng) -> (Pat, Vec<Re>, bool, Option<bool>) {
     if !regexp { return (Pat::Hex(Re::Cat(items)), pieces, false, None); }
     let mut m = RMods { dotall: true, ..Default::default() };
     let mut wide_inst = None;
-    match rng.below(12) {
-        0 | 1 => { m.nocase = true; }
-        2 => { m.wide = true; wide_inst = Some(true); }
-        3 => { m.wide = true; m.ascii = true; wide_inst = Some(rng.chance(1, 2)); }
-        4 => { m.fullword = true; }
-        5 => { m.nocase = true; m.wide = true; wide_inst = Some(true); }
+    match rng.below(24) {
+        0..=3 => { m.nocase = true; }
+        4 | 5 => { m.wide = true; wide_inst = Some(true); }
+        6 | 7 => { m.wide = true; m.ascii = true; wide_inst = Some(rng.chance(1, 2)); }
+        8 | 9 => { m.fullword = true; }
+        10 => { m.nocase = true; m.wide = true; wide_inst = Some(true); }
         _ => {}
     }
     let nc = m.nocase;
@@ -1255,7 +1255,7 @@ fn gen_chain_buffer(pieces: &[Re], nc: bool, wide: Option<bool>, rng: &mut Rng) 
     let mut next = 0usize;
     let mut long_fillers = 0;
     let w = wide == Some(true);
-    if rng.chance(1, 3) { buf.push(b'_'); if w { buf.push(0); } }
+    if rng.chance(1, 3) { buf.push(b'.'); if w { buf.push(0); } }
     for _ in 0..tokens {
         let k = match rng.below(10) {
             0..=4 => { let k = next % n; next += 1; k }                 // in order
@@ -1268,11 +1268,12 @@ fn gen_chain_buffer(pieces: &[Re], nc: bool, wide: Option<bool>, rng: &mut Rng) 
         if rng.chance(1, 8) && !inst.is_empty() { let l = inst.len(); inst[l - 1] ^= 0x20; }   // a near miss
         if w { inst = widen(&inst); }
         buf.extend_from_slice(&inst);
-        let fill = if long_fillers < 1 && rng.chance(1, 40) { long_fillers += 1; 196 + rng.below(20) as usize } else { rng.below(4) as usize };
+        let fill = if long_fillers < 1 && !(nc && w) && rng.chance(1, 40) { long_fillers += 1; 196 + rng.below(20) as usize } else { rng.below(4) as usize };
         // for the wide form mostly wide filler (the gap of a wide chain is not required to be wide: known finding)
-        if w && !rng.chance(1, 6) { for _ in 0..fill / 2 + fill % 2 { buf.push(*rng.pick(b"__.x")); buf.push(0); } }
-        else { for _ in 0..fill { buf.push(*rng.pick(b"__.x")); } }
-        if buf.len() > 300 { break; }
+        // filler bytes that no piece can match (a piece like /_+/ on a buffer of underscores has quadratically many matches)
+        if w && !rng.chance(1, 12) { for _ in 0..fill / 2 + fill % 2 { buf.push(*rng.pick(b"..-=")); buf.push(0); } }
+        else { for _ in 0..fill { buf.push(*rng.pick(b"..-=")); } }
+        if buf.len() > (if nc || w { 120 } else { 300 }) { break; }
     }
     buf
 }
